@@ -2,6 +2,8 @@
 
 #include <string>
 #include <string_view>
+#include <cmath>
+#include <limits>
 
 #ifndef CONCAT_
 #define CONCAT_(L, R) L ## R
@@ -49,6 +51,18 @@
 
 namespace sqf::runtime::util
 {
+    /// Rounds a script number to the nearest integer of type TInt.
+    /// Numbers outside of TInt's range yield its nearest limit, NaN yields 0 (a plain cast is undefined behaviour for both).
+    template<typename TInt = int>
+    inline TInt round_to(float f)
+    {
+        if (f != f) { return 0; }
+        auto rounded = std::round(f);
+        if (rounded >= static_cast<float>(std::numeric_limits<TInt>::max())) { return std::numeric_limits<TInt>::max(); }
+        if (rounded <= static_cast<float>(std::numeric_limits<TInt>::min())) { return std::numeric_limits<TInt>::min(); }
+        return static_cast<TInt>(rounded);
+    }
+
     inline std::string_view ltrim(std::string_view str, std::string_view chars = " \t")
     {
         size_t startpos = str.find_first_not_of(chars);
